@@ -20,7 +20,7 @@ from ..report import Ob, AnalysisError
 
 REL = "inference/gp/inversion.py"
 FLOORS = {"float-arithmetic": 1, "components-not-shared": 1, "posterior-form": 3, "evidence-form": 2, "evidence-gradient-form": 2, "noise-matrices": 1,
-          "triangular-solves": 1, "slice-layout": 2}
+          "triangular-solves": 1, "slice-layout": 2, "scratch-owned": 5}
 
 ATOMS = {"self.A": ("A", 2, False), "self.y": ("y", 1, False), "self.inv_sigma": ("Si", 2, True),
          "self.sigma": ("S", 2, True)}
@@ -57,6 +57,14 @@ def make(prog, ci):
 def run(prog, tier):
     obs = []
     ci = prog.cls("GpLinearInverter")
+    # the forward model, the data and their error model are read by every evaluation: none of them may be consumed as scratch
+    from .common import scratch_owned_obligations
+    so = scratch_owned_obligations(prog, "scratch-owned", [ci],
+                                   "the forward model / data kept by the inverter is overwritten by one evaluation: every later "
+                                   "posterior and evidence is computed from the damaged array (and so is the caller's own array)")
+    obs.extend(so)
+    if any(not o.ok for o in so):
+        return obs, {}, {"explanation": "kept arrays are consumed as scratch; formula rules not evaluated"}
     A, y, Si, S = (M.atom(*ATOMS[k][:2]) for k in ("self.A", "self.y", "self.inv_sigma", "self.sigma"))
     ncf.SYMMETRIC.update({"Si", "S", "K", "dK"})
     K, m = M.atom("K", 2, True), M.atom("m", 1)
@@ -180,6 +188,8 @@ def run(prog, tier):
     obs.extend(dtype_hazard_obligations(prog, "float-arithmetic", ['inference/gp/inversion.py']))
     from .common import call_order_obligations
     obs.extend(call_order_obligations(prog, "arguments-in-order", ['inference/gp/inversion.py']))
+    from .common import identity_memo_obligations
+    obs.extend(identity_memo_obligations(prog, "result-keyed-on-values", ['inference/gp/inversion.py']))
 
     obs.extend(memo_obligations(prog, "cache-key", [prog.cls("GpLinearInverter")]))
 
